@@ -2,11 +2,10 @@
    new keys use fresh entropy.
    scrypt, AES, NFC, the hashes, Base58 and the curve are universally quantified; what is assumed about them
    is written in each statement (aes_inverse, aes_block_length, scrypt_length, hash_length, b58_roundtrip43,
-   b58_protected_shape: Model/Bip38.v).  Plain (non-EC-multiplied) mode is proved; the EC-multiplied mode is
-   covered by wrong_passphrase_checked and by the correspondence (bip38_ec_roundtrip is not proved). *)
+   b58_protected_shape, b58_roundtrip53, b58_protected_shape_ec, curve_mul_law, pub_length33: Model/Bip38.v). *)
 From Coq Require Import ZArith List Bool.
 From Coq.Strings Require Import Byte.
-From Verif Require Import Lib.Bytes Model.Bip38 Proofs.Bip38.
+From Verif Require Import Lib.Bytes Model.Bip38 Proofs.Bip38 Proofs.Bip38Ec.
 Import ListNotations.
 Open Scope Z_scope.
 
@@ -46,6 +45,31 @@ Theorem wrong_passphrase_no_other_key :
   exists a a', lib_address H H160 b58e pubser pfx c k = Some a /\
                lib_address H H160 b58e pubser pfx c' k' = Some a' /\ firstn 4 (H a') = firstn 4 (H a).
 Proof. exact other_passphrase. Qed.
+
+(* --- EC-multiplied mode: a key made by bip38_create_new_encrypted_wif (network bitcoin: class ec_foreign_network)
+       from an intermediate code of the BIP form  magic ++ ownerentropy ++ passpoint  decrypts, with the passphrase
+       the pass point was derived from, to passfactor * factorb mod n; its address is the generated address; seed,
+       compression flag and lot/sequence come back.  (That bip38_intermediate_password writes this form is
+       bip38_intermediate_is_spec + the correspondence.) --- *)
+Theorem bip38_ec_roundtrip :
+  forall P utf8 scrypt aes_enc aes_dec H H160 b58e b58d pubser ptmulser,
+  aes_inverse aes_enc aes_dec -> aes_block_length aes_enc -> scrypt_length scrypt -> hash_length H ->
+  b58_roundtrip53 b58e b58d -> b58_roundtrip43 b58e b58d -> b58_protected_shape_ec b58e ->
+  curve_mul_law pubser ptmulser -> pub_length33 pubser ->
+  forall has_lot c pw oe pp seed nk,
+  length oe = 8%nat -> length seed = 24%nat ->
+  let pfz := of_be (pass_factor_of P utf8 scrypt H has_lot pw oe) in
+  0 < pfz < secp_order -> pubser true pfz = Some pp ->
+  lib_create_new scrypt aes_enc H H160 b58e b58d pubser ptmulser [x00]
+    (b58check H b58e (ec_magic has_lot ++ oe ++ pp)) c seed = Ok nk ->
+  lib_key_decrypt P utf8 scrypt aes_dec H H160 b58e b58d pubser [x00] (nk_wif nk) pw
+    = KOk ((pfz * of_be (H seed)) mod secp_order) c /\
+  lib_address H H160 b58e pubser [x00] c ((pfz * of_be (H seed)) mod secp_order) = Some (nk_address nk) /\
+  exists i, lib_bip38_decrypt P utf8 scrypt aes_dec H H160 b58e b58d pubser (nk_wif nk) pw = Ok i /\
+            di_seed i = seed /\
+            di_lot i = (if has_lot then Some (of_be (skipn 4 oe) / 4096) else None) /\
+            di_sequence i = (if has_lot then Some (of_be (skipn 4 oe) mod 4096) else None).
+Proof. exact ec_roundtrip. Qed.
 
 (* --- agreement with the BIP text; guard = the passphrase is already in NFC form (class passphrase_not_nfc) --- *)
 Theorem bip38_is_spec :
@@ -98,15 +122,9 @@ Proof.
   intros. split; [apply intermediate_seq0_lib | apply intermediate_seq0_spec]; assumption.
 Qed.
 
-(* toy oracles (identity AES, a checksum as hash, scrypt = password padded): the functions compute, the round trip
-   returns the key, and without the NFC guard the library and the BIP text differ *)
-Definition toy_scrypt (pw salt : bytes) (n r p : Z) (dk : nat) : bytes := firstn dk (pw ++ salt ++ repeat x00 dk).
-Definition toy_aes (k b : bytes) : bytes := b.
-Definition toy_H (x : bytes) : bytes := repeat (zb (fold_right (fun b a => 3 * a + bz b) 0 x)) 32.
-Definition toy_b58e (x : bytes) : bytes := x36 :: x50 :: x ++ repeat x31 13.
-Definition toy_b58d (s : bytes) : option bytes := Some (firstn 43 (skipn 2 s)).
-Definition toy_pub (c : bool) (k : Z) : option bytes := if k =? 0 then None else Some ((if c then x02 else x04) :: be_bytes 32 k).
-
+(* toy oracles of Model/Bip38.v (identity AES, a checksum as hash, scrypt = password padded): the functions compute,
+   the round trip returns the key, a wrong passphrase is refused, and without the NFC guard the library and the
+   BIP text differ *)
 Example roundtrip_witness :
   exists e,
   lib_key_encrypt bytes (fun p => p) toy_scrypt toy_aes toy_H toy_H toy_b58e toy_pub [x00] true 305419896 [x70; x77] = Some e /\
@@ -121,6 +139,7 @@ Proof. vm_compute. discriminate. Qed.
 
 Print Assumptions bip38_roundtrip.
 Print Assumptions bip38_encrypt_total.
+Print Assumptions bip38_ec_roundtrip.
 Print Assumptions wrong_passphrase_checked.
 Print Assumptions wrong_passphrase_no_other_key.
 Print Assumptions bip38_is_spec.
